@@ -63,6 +63,8 @@ def _unify(a, b, mp) -> bool:
 
 
 def run(ck, m):
+    from rules.common import rule_memo_safety
+    rule_memo_safety(ck, m, "MEMO", "C04")          # first: a memoised helper also hides the code it wraps from the rules below
     vs = m.get(CM, "BaseImage._valid_size")
     # ---- R1 ----------------------------------------------------------------------------
     rets = [r for r in body_walk(vs) if isinstance(r, ast.Return)]
@@ -203,8 +205,10 @@ def run(ck, m):
     from rules.c05 import rule_frame_normalisation
     rule_frame_normalisation(ck, m, "R1")
 
-    from rules.common import rule_memo_safety
-    rule_memo_safety(ck, m, "MEMO", "C04")
+    # float -> cell/pixel conversions in _valid_size go through round() only (int()/floor()/// truncate: ori * (frame / ori) is not exact in floating point)
+    conv = sorted({(call_name(c) or "") for c in body_walk(vs) if isinstance(c, ast.Call) and (call_name(c) or "") in ("int", "floor", "ceil", "trunc", "math.floor", "math.ceil", "math.trunc", "round")})
+    ck.ob("R5", vs, conv == ["round"], f"_valid_size converts computed (float) dimensions with {conv}; only round() keeps a dimension that is mathematically equal to the frame's from coming out one cell short",
+          stmt="_valid_size: float dimensions converted with round() only")
 
 
 MUTANTS = [
